@@ -16,17 +16,23 @@ theorem runExit_fields (s : St) (e : Res) :
   repeat' split
   all_goals simp_all
 
-theorem deliver_dying (s : St) (v : Val) (hd : Dying s) :
-    (deliver s v).closed = true ∧ (deliver s v).closeRes = valRes v := by
-  have hm : (handOver s (valRes v)).mustClose = true := by
-    unfold handOver
-    cases s.pending <;> simp [emit, hd.2]
-  unfold deliver
-  simp only [hm, if_true]
-  exact ⟨(runExit_fields _ _).1, (runExit_fields _ _).2.1⟩
+theorem handOver_flags (s : St) (r : Res) :
+    (handOver s r).mustClose = s.mustClose ∧ (handOver s r).ctxDone = s.ctxDone := by
+  unfold handOver
+  cases s.pending <;> simp [emit]
 
-/-- Once the context is cancelled and mustClose is latched, returning ANY value into ANY stack ends
-with the client closed: nothing can block any more. -/
+theorem deliver_dying (s : St) (v : Val) (hd : Dying s) :
+    (deliver s v).closed = true ∧
+    ((deliver s v).closeRes = valRes v ∨ (deliver s v).closeRes = some .terminated) := by
+  have hc : (handOver s (valRes v)).ctxDone = true := by rw [(handOver_flags _ _).2]; exact hd
+  unfold deliver
+  simp only [hc, if_true]
+  split
+  · exact ⟨(runExit_fields _ _).1, Or.inl (runExit_fields _ _).2.1⟩
+  · exact ⟨(runExit_fields _ _).1, Or.inr (runExit_fields _ _).2.1⟩
+
+/-- Once the context is cancelled, returning ANY value into ANY stack ends with the client closed:
+nothing can block any more. -/
 theorem resume_dying (c : Cfg) (k : List Fr) :
     ∀ s v, Dying s → (resume c k s v).closed = true := by
   induction k with
@@ -42,9 +48,10 @@ theorem deliver_blockedFor (ap : Api) (s : St) (v : Val) : BlockedFor ap (delive
   left
   unfold deliver
   simp only []
-  split
-  · exact (runExit_fields _ _).2.2.2.2.2.1
-  · exact handOver_stack _ _
+  repeat' split
+  all_goals first
+    | exact (runExit_fields _ _).2.2.2.2.2.1
+    | exact handOver_stack _ _
 
 theorem resume_pend (c : Cfg) (ap : Api) (k : List Fr) :
     ∀ s v, Pend ap s → BlockedFor ap (resume c k s v) := by
@@ -186,9 +193,9 @@ def undoOf (f : Fr) (s : St) : St :=
   | _ => s
 
 theorem frameRet_err (c : Cfg) (f : Fr) (k : List Fr) (retK : St → Val → St) (s : St) (e : Err)
-    (hf : ∀ n, f ≠ .resetK n) : frameRet c f k retK s (.err e) = retK (undoOf f s) (.err e) := by
+    (hf : ∀ n b, f ≠ .resetK n b) : frameRet c f k retK s (.err e) = retK (undoOf f s) (.err e) := by
   cases f <;> simp [frameRet, undoOf]
-  exact absurd rfl (hf _)
+  exact absurd rfl (hf _ _)
 
 def undoAll : List Fr → St → St
   | [], s => s
@@ -211,7 +218,7 @@ theorem undoAll_keeps (k : List Fr) : ∀ s,
     simp only [undoAll]
     exact ⟨h1.1.trans h2.1, h1.2.1.trans h2.2.1, h1.2.2.1.trans h2.2.2.1, h1.2.2.2.trans h2.2.2.2⟩
 
-def NoReset (k : List Fr) : Prop := ∀ f ∈ k, ∀ n, f ≠ .resetK n
+def NoReset (k : List Fr) : Prop := ∀ f ∈ k, ∀ n b, f ≠ .resetK n b
 
 theorem resume_err (c : Cfg) (k : List Fr) (hk : NoReset k) :
     ∀ s e, resume c k s (.err e) = deliver (undoAll k s) (.err e) := by
@@ -249,7 +256,9 @@ theorem resume_dyingE (c : Cfg) (k : List Fr) :
   | nil =>
     intro s e hd
     have h := deliver_dying s (.err e) hd
-    exact ⟨h.1, by rw [h.2]; simp [valRes]⟩
+    simp only [resume]
+    refine ⟨h.1, ?_⟩
+    rcases h.2 with h2 | h2 <;> rw [h2] <;> simp [valRes]
   | cons f k ih =>
     intro s e hd
     simp only [resume]
